@@ -83,7 +83,7 @@ def compiled_split_programs():
     holds the merged list and the spellings side by side and observes the derived impls at run time."""
     out = []
     S = "{ #[ord(key = $.abs())] pub a: i32, #[ord(ignore)] pub b: u8, pub c: u8 }"
-    E_ = "{ A(#[ord(key = $ % 2, reverse)] u8), B, C { #[eq(ignore)] x: u8, y: u8 } }"
+    E_ = "{ A(#[ord(key = $ % 2, reverse)] u8), B, C { #[ord(ignore)] x: u8, y: u8 } }"
     for kind, body, vals in (("struct", S, ["S { a: 1, b: 0, c: 1 }", "S { a: -1, b: 5, c: 1 }", "S { a: 2, b: 0, c: 0 }"]),
                              ("enum", E_, ["S::A(1)", "S::A(3)", "S::A(2)", "S::B", "S::C { x: 1, y: 2 }", "S::C { x: 9, y: 2 }"])):
         kw = f"pub {kind} S {body}"
